@@ -137,6 +137,43 @@ def lattice_tree(rng, n, shape):
             "r": [(i + 1) / 8 for i in range(n)], "elen": elen}
 
 
+def build_input(case):
+    """the Tree a case describes, built on the real library: the (possibly derived) tree with the position tags r / tag / level and the extra
+    columns of the case → (tree, what the oracle must know about a derivation, extra column specs, a copy of every column before the call)"""
+    from swcgeom.core import Tree
+    from swcgeom.transforms import CutByFurcationOrder, CutByType, CutShortTipBranch
+
+    t = gen.make_tree(case["tree"])
+    n0 = case["tree"]["n"]
+    extra = {}
+    if case.get("derive"):
+        from swcgeom.core.tree_utils import redirect_tree, sort_tree
+
+        # ask the original tree everything first
+        with warnings.catch_warnings():
+            warnings.simplefilter("ignore")
+            CutByFurcationOrder(2)(t); CutByType(3)(t); CutShortTipBranch(thre=2)(t); t.get_branches(); t.get_tips(); t.get_furcations()
+            [(t.node(i).is_furcation(), t.node(i).is_tip(), len(t.node(i).children())) for i in range(n0)]
+        d = case["derive"]
+        t = sort_tree(t) if d == "sort" else redirect_tree(t, int(d.split(":")[1]))
+        extra["eff"] = {"pids": t.pid().tolist(), "types": t.type().tolist(), "xyz": t.xyz().astype(float).tolist()}
+    # identity tag by position (the radius), plus two columns beyond the seven standard ones
+    cols = {k: t.get_ndata(k).copy() for k in ["id", "type", "x", "y", "z", "pid"]}
+    cols["r"] = ((np.arange(n0) + 1) / 8).astype(np.float32)
+    cols["tag"] = (1000.0 + np.arange(n0)).astype(np.float32)
+    cols["level"] = ((np.arange(n0) * 7) % 5).astype(np.int32)
+    specs = case.get("cols") or []
+    for c in specs:
+        cols[c["name"]] = col_values(c, n0)
+    if case.get("derive"):
+        for c in ["r", "tag", "level"] + [c["name"] for c in specs]:
+            t.ndata[c] = cols[c]                                                                       # same (derived, queried) object
+    else:
+        t = Tree(n0, **cols)
+    before = {k: t.get_ndata(k).copy() for k in t.keys()}
+    return t, extra, specs, before
+
+
 def kids_of(pids):
     k = {}
     for i, p in enumerate(pids):
@@ -372,34 +409,7 @@ class Ops(Suite):
 
         from swcgeom.core import Tree
 
-        t = gen.make_tree(case["tree"])
-        n0 = case["tree"]["n"]
-        extra = {}
-        if case.get("derive"):
-            from swcgeom.core.tree_utils import redirect_tree, sort_tree
-
-            # ask the original tree everything first
-            with warnings.catch_warnings():
-                warnings.simplefilter("ignore")
-                CutByFurcationOrder(2)(t); CutByType(3)(t); CutShortTipBranch(thre=2)(t); t.get_branches(); t.get_tips(); t.get_furcations()
-                [(t.node(i).is_furcation(), t.node(i).is_tip(), len(t.node(i).children())) for i in range(n0)]
-            d = case["derive"]
-            t = sort_tree(t) if d == "sort" else redirect_tree(t, int(d.split(":")[1]))
-            extra["eff"] = {"pids": t.pid().tolist(), "types": t.type().tolist(), "xyz": t.xyz().astype(float).tolist()}
-        # identity tag by position (the radius), plus two columns beyond the seven standard ones
-        cols = {k: t.get_ndata(k).copy() for k in ["id", "type", "x", "y", "z", "pid"]}
-        cols["r"] = ((np.arange(n0) + 1) / 8).astype(np.float32)
-        cols["tag"] = (1000.0 + np.arange(n0)).astype(np.float32)
-        cols["level"] = ((np.arange(n0) * 7) % 5).astype(np.int32)
-        specs = case.get("cols") or []
-        for c in specs:
-            cols[c["name"]] = col_values(c, n0)
-        if case.get("derive"):
-            for c in ["r", "tag", "level"] + [c["name"] for c in specs]:
-                t.ndata[c] = cols[c]                                                                       # same (derived, queried) object
-        else:
-            t = Tree(n0, **cols)
-        before = {k: t.get_ndata(k).copy() for k in t.keys()}
+        t, extra, specs, before = build_input(case)
         op = case["op"]
         k = op["op"]
         mk = case.get("mapkind") if k in MAP_OPS else None
@@ -712,7 +722,185 @@ class SubTopo(Suite):
         return out
 
 
-SUITES = [Ops(), SubTopo()]
+# the type of the root of a reconstruction: a soma (1) in whole-neuron files; undefined (0) where the tracing tool writes no types; an axon / dendrite
+# type (2 / 3 / 4) in neurite-only tracings and in re-rooted trees; a custom type (>= 5) with a lab's own type table. `type_check=False` is the option
+# that get_neurites / get_dendrites offer for all roots but the first.
+ROOT_KINDS = [("soma", [1]), ("undefined", [0]), ("axon", [2]), ("basal", [3]), ("apical", [4]), ("custom", [5, 6, 7, 8, 12, 60])]
+ROOT_KIND_OF = {v: k for k, vs in ROOT_KINDS for v in vs}
+# how the option arrives: left at its default, or spelled out (keyword / positional; python bool / numpy bool)
+TC_FORMS = [("default", None), ("kw", True), ("kw", False), ("pos", True), ("pos", False), ("kw-np", False), ("kw-np", True)]
+
+
+def dump_tree(y, specs):
+    """a result tree, whole: every standard column, the position tags and every extra column with its shape"""
+    d = {"pid": y.pid().tolist(), "id": y.id().tolist(), "r": [float(v) for v in y.r()], "type": y.type().tolist(),
+         "xyz": y.xyz().astype(float).tolist(), "keys": sorted(str(c) for c in y.keys()),
+         "tag": [float(v) for v in y.get_ndata("tag")] if "tag" in y.keys() else None,
+         "level": [int(v) for v in y.get_ndata("level")] if "level" in y.keys() else None}
+    if specs:
+        d["cols"] = {c["name"]: ({"shape": list(np.shape(y.get_ndata(c["name"]))), "vals": np.asarray(y.get_ndata(c["name"])).tolist()}
+                                 if c["name"] in y.keys() else None) for c in specs}
+    return d
+
+
+class Neurites(Suite):
+    """`Tree.get_neurites` / `Tree.get_dendrites`: the subtrees at the root's children (all of them / the dendrite-typed ones), each judged as
+    the extraction it is (nodes, parents, root, every attribute), on trees with ANY root type, the same tree object asked several times with
+    every spelling of the `type_check` option."""
+    name = "c06.neurites"
+    repeat = 8
+
+    def cases(self, rng, tier, widen):
+        out = []
+        big = tier == "thorough" or widen
+        k = 0
+
+        def calls():
+            # every question (neurites / dendrites) with the check left at its default, switched on and switched off, in a random order
+            cs = []
+            for which in ("neurites", "dendrites"):
+                forms = [TC_FORMS[0], rng.choice([f for f in TC_FORMS if f[1] is True]), rng.choice([f for f in TC_FORMS if f[1] is False])]
+                cs += [{"which": which, "form": f, "tc": v} for f, v in forms]
+            rng.shuffle(cs)
+            return cs
+
+        def retype(t, kind_i):
+            """any root type; the root's children of every kind (dendrite-typed or not, soma-typed and custom ones included)"""
+            kind, vals = ROOT_KINDS[kind_i % len(ROOT_KINDS)]
+            types = [rng.choice(vals)] + [rng.choice([2, 3, 3, 4, 4, 0, 1, 5, 7]) for _ in range(t["n"] - 1)]
+            ch = [i for i, p in enumerate(t["pids"]) if p == 0]
+            if len(ch) >= 2:      # at least one dendrite and one other neurite below the root
+                a, b = rng.sample(ch, 2)
+                types[a] = rng.choice([3, 4]); types[b] = rng.choice([2, 0, 5, 1])
+            return dict(t, types=types)
+
+        # every small tree, with the root types in turn
+        import itertools
+        for n in range(1, 6 if big else 5):
+            for ps in itertools.product(*[range(i) for i in range(1, n)]):
+                t = {"n": n, "pids": [-1] + list(ps), "types": [1] * n, "xyz": [[float(i), 0.0, 0.0] for i in range(n)],
+                     "r": [(i + 1) / 8 for i in range(n)], "elen": [0] + [1] * (n - 1)}
+                t = retype(t, k); k += 1
+                out.append({"class": f"all-n{n}", "tree": t, "op": {"op": "neurites"}, "calls": calls()})
+        # generated trees of every shape (numbered freely below the root), every root kind with every shape over the run; a share of them
+        # re-rooted / sorted copies of a queried tree (the root of a re-rooted tree is whatever the chosen node was), a share with extra columns
+        ns = [2, 3, 4, 6, 9, 14, 23] if not big else [2, 3, 4, 5, 6, 8, 11, 16, 24, 40, 70, 120]
+        for rep in range(6 if not big else 12):
+            for j, n in enumerate(ns):
+                shape = gen.SHAPES[1 + (k + rep) % (len(gen.SHAPES) - 1)]
+                t = retype(lattice_tree(rng, n, shape), k + rep * 5); k += 1
+                case = {"class": shape, "tree": t, "op": {"op": "neurites"}, "calls": calls()}
+                if t["n"] >= 3 and (j + rep) % 4 == 0:
+                    case["derive"] = rng.choice(["sort", f"redirect:{rng.randrange(1, t['n'])}", f"redirect:{rng.randrange(1, t['n'])}"])
+                    case["class"] += "/derived"
+                if (j + rep) % 3 == 0:
+                    case["cols"] = extra_cols(rng, k)
+                    case["class"] += "/cols"
+                out.append(case)
+        return out
+
+    def run(self, case):
+        t, extra, specs, before = build_input(case)
+        res = {"calls": []}
+        for c in case["calls"]:
+            fn = t.get_neurites if c["which"] == "neurites" else t.get_dendrites
+            form, tc = c["form"], c["tc"]
+            try:
+                if form == "default":
+                    ys = fn()
+                elif form == "pos":
+                    ys = fn(tc)
+                else:
+                    ys = fn(type_check=np.bool_(tc) if form == "kw-np" else tc)
+                res["calls"].append({"trees": [dump_tree(y, specs) for y in ys]})
+            except Exception as e:  # noqa: BLE001 - judged by the oracle, call by call
+                res["calls"].append({"exc": type(e).__name__, "msg": str(e)[:200]})
+        res["input_unchanged"] = bool(all(np.array_equal(before[c], t.get_ndata(c)) for c in before))
+        res.update(extra)
+        return res
+
+    _tree = Ops._tree
+
+    @staticmethod
+    def _starts(t, which):
+        kids = kids_of(t["pids"])
+        return [c for c in kids.get(0, []) if which == "neurites" or t["types"][c] in (3, 4)]
+
+    @staticmethod
+    def _spell(c):
+        return f"get_{c['which']}({'' if c['form'] == 'default' else ('type_check=' if c['form'] != 'pos' else '') + str(c['tc'])})"
+
+    def lines(self, case, res):
+        # every subtree handed out is an extraction at one of the root's children: the same tie as `subtree` (model and generated definition)
+        if "exc" in res:
+            return []
+        t = self._tree(case, res)
+        out, seen = [], set()
+        for c, r in zip(case["calls"], res["calls"]):
+            for y in r.get("trees", []):
+                m = [int(round(v * 8)) - 1 for v in y["r"]]
+                if not m or m[0] not in self._starts(t, c["which"]):
+                    continue
+                ln = (f"subtree pids={gen.ints(t['pids'])} n={m[0]}", f"{gen.ints(y['pid']).replace('_', '')} / {gen.ints(m).replace('_', '')}")
+                if ln not in seen:
+                    seen.add(ln); out += [ln, ("g" + ln[0], ln[1])]
+        return out
+
+    def oracle(self, case, res):
+        try:
+            return self._oracle(case, res)
+        except Exception as e:  # noqa: BLE001
+            return [("neurites-malformed-result", f"get_neurites / get_dendrites on pids={case['tree']['pids']}: the result cannot be judged "
+                     f"({type(e).__name__}: {e}): {str(res)[:300]}")]
+
+    def _oracle(self, case, res):
+        if not isinstance(res, dict) or ("exc" not in res and not isinstance(res.get("calls"), list)):
+            return [("neurites-malformed-result", f"result {str(res)[:300]}")]
+        t = self._tree(case, res)
+        if "exc" in res:
+            return [("neurites-raises", f"building / deriving the tree pids={t['pids']} ({case.get('derive')}) raised {res['exc']}: {res.get('msg')}")]
+        out = []
+        kids = kids_of(t["pids"])
+        where = f"pids={t['pids']} types={t['types']}" + (f" (derived: {case['derive']})" if case.get("derive") else "")
+        judge = Ops()
+        for i, (c, r) in enumerate(zip(case["calls"], res["calls"])):
+            which = c["which"]
+            what = f"{self._spell(c)} (call {i + 1} of {[self._spell(x) for x in case['calls']]} on one tree) on {where}"
+            checked = c["tc"] is None or bool(c["tc"])
+            if "exc" in r:
+                if checked and t["types"][0] != 1:
+                    continue      # the root is not typed as soma and the check is on: the refusal is the check's business, not this property's
+                out.append((f"{which}-raises", f"{what} raised {r['exc']}: {r.get('msg')}"))
+                continue
+            starts = self._starts(t, which)
+            want = sorted(sorted(desc(kids, s)) for s in starts)
+            got = [[int(round(v * 8)) - 1 for v in y["r"]] for y in r["trees"]]
+            if sorted(sorted(g) for g in got) != want or any(len(set(g)) != len(g) for g in got):
+                rule = "the root's children" if which == "neurites" else "the root's dendrite-typed (3 / 4) children"
+                out.append((which, f"{what} gives the node sets {[sorted(g) for g in got]}, the subtrees at {rule} {starts} are {want}"))
+                continue
+            # each of them is the extraction at its child: nodes, parents, root without parent, every attribute of every survivor
+            for y, g in zip(r["trees"], got):
+                s = next(s_ for s_ in starts if s_ in g and len(g) == len(desc(kids, s_)))
+                sub = judge.oracle({"tree": t, "op": {"op": "subtree", "n": s}, "cols": case.get("cols")}, dict(y, input_unchanged=True))
+                out += [(which + key[len("subtree"):] if key.startswith("subtree") else f"{which}-{key}", f"{what}: {msg}") for key, msg in sub]
+                if sub:
+                    break
+            if len(out) >= 3:
+                break
+        if not res.get("input_unchanged"):
+            out.append(("neurites-mutates-input", f"get_neurites / get_dendrites modified the tree {where}"))
+        return out[:3]
+
+    def nontrivial(self, case, res):
+        return case["tree"]["n"] >= 3 and len(kids_of(case["tree"]["pids"]).get(0, [])) >= 1
+
+    def klass(self, case, res):
+        ty = self._tree(case, res)["types"][0] if isinstance(res, dict) else case["tree"]["types"][0]
+        return "root-" + ROOT_KIND_OF.get(ty, "custom") + ("/derived" if case.get("derive") else "") + ("/raised" if isinstance(res, dict) and "exc" in res else "")
+
+
+SUITES = [Ops(), SubTopo(), Neurites()]
 TECHNIQUE = ("Lean 4 theorems by structural induction (via C04's loop = recursion theorem) about the models of get_subtree / to_sub_topology / "
              "propagate_removal / cut_tree / CutByType / CutByFurcationOrder / CutShortTipBranch + differential correspondence (new parents and "
              "new→old mapping compared exactly) + an oracle that evaluates each rule literally; to_sub_topology (the compaction / parent remap / mapping step behind every extraction "
